@@ -141,21 +141,58 @@ def rule_reset(check):
     check.floor(R, "reset_ctx call sites", len(sites), 1)
     for f, n in sites:
         ok = f.name == "drop" and "WithCtx" in f.def_path
-        atoms = gate.atoms_at(f, n)
-        conj = False
-        for a in atoms:
-            e = a[-1] if isinstance(a[-1], dict) else None
-            if a[0] in ("other", "compound") or (e is not None and e.get("k") == "Binary"):
-                e = hir.peel(e)
-                if e.get("k") == "Binary" and e["op"] in ("BitAnd", "And"):
-                    sides = [hir.peel(e["l"]), hir.peel(e["r"])]
-                    root_side = any(s.get("k") == "Field" and s["field"] == "root" and any(hir.callee_name(x) == "get_ctx" for x in hir.walk(s)) for s in sides)
-                    auto_side = any(hir.local_of(s) for s in sides)
-                    conj = root_side and auto_side and a[2 if a[0] != "compound" else 2] is True
-        # order: set_ctx(orig_ctx) before the root test
+        # restore: set_ctx(<a Ctx field of the guard>) before the test
         sets = [x for x in hir.calls_in(f.body, name="set_ctx")]
-        order = bool(sets) and all(x["id"] < n["id"] for x in sets) and any((hir.place(hir.call_args(x)[1]) or "").endswith(".orig_ctx") for x in sets)
-        check.expect(ok and conj and order, R, R + "/reset_ctx", hir.loc(n), "reset_ctx only from WithCtx::drop under (restored ctx).root & auto_reset", "reset_ctx is called from %s; guard root&auto_reset=%s; ctx restored first=%s" % (f.name, conj, order))
+        restores = [x for x in sets if hir.peel(hir.call_args(x)[1]).get("k") == "Field" and (hir.local_of(hir.peel(hir.call_args(x)[1])["x"]) or (0, ""))[1] == "self"]
+        order = bool(restores) and all(x["id"] < n["id"] for x in restores) and len(sets) == len(restores)
+        first_restore = min((x["id"] for x in restores), default=None)
+
+        def classify(e):
+            """root-now | auto-child | None for one conjunct of the reset condition"""
+            e = hir.peel(e)
+            if e.get("k") == "Field" and e["field"] == "root":
+                b = hir.peel(e["x"])
+                if hir.is_call(b) and hir.callee_name(b) == "get_ctx" and first_restore is not None and b["id"] > first_restore:
+                    return "root-now"
+                return None
+            # auto_reset of the child context: read (directly or through a local) before the restore
+            cur = e
+            for _ in range(3):
+                l = hir.local_of(cur)
+                if l is None:
+                    break
+                bnd = f.bindings().get(l[0])
+                if not bnd or bnd["origin"][0] != "let" or bnd["origin"][1] is None or f.assignments_to(l[0]):
+                    return None
+                cur = hir.peel(bnd["origin"][1])
+            if cur.get("k") == "Field" and cur["field"] == "auto_reset":
+                b = hir.peel(cur["x"])
+                for _ in range(3):
+                    l = hir.local_of(b)
+                    if l is None:
+                        break
+                    bnd = f.bindings().get(l[0])
+                    if not bnd or bnd["origin"][0] != "let" or bnd["origin"][1] is None or f.assignments_to(l[0]):
+                        return None
+                    b = hir.peel(bnd["origin"][1])
+                if hir.is_call(b) and hir.callee_name(b) == "get_ctx" and first_restore is not None and b["id"] < first_restore:
+                    return "auto-child"
+            return None
+
+        def conjuncts(e):
+            e = hir.peel(e)
+            if e.get("k") == "Binary" and e["op"] in ("And", "BitAnd"):
+                return conjuncts(e["l"]) + conjuncts(e["r"])
+            return [e]
+
+        kinds = []
+        for c in f.conds_at(n):
+            if c["t"] != "bool" or c["v"] is not True:
+                kinds.append(None)
+                continue
+            kinds += [classify(x) for x in conjuncts(c["e"])]
+        conj = sorted(k or "?" for k in kinds) == ["auto-child", "root-now"]
+        check.expect(ok and conj and order, R, R + "/reset_ctx", hir.loc(n), "reset_ctx only from WithCtx::drop under (restored ctx).root & (child ctx).auto_reset", "reset_ctx is called from %s; guard is %s (wanted: root of the restored context and auto_reset of the context being left); ctx restored first=%s" % (f.name, sorted(k or "?" for k in kinds), order))
     ch = prog.fn("Ctx::child")
     check.expect(_never_root(prog, ch), R, R + "/child-not-root", hir.loc(ch.rec), "Ctx::child has root: false", "a child context can be root")
     # guards: methods that install a context which can never be root (with_child_ctx and siblings)
@@ -169,13 +206,26 @@ def rule_reset(check):
         good = True
         for r in rs:
             r = hir.peel(r)
-            if not (hir.is_call(r) and hir.callee_name(r) == "with_ctx" and len(hir.call_args(r)) > 1):
+            if hir.is_call(r) and hir.callee_name(r) == "with_ctx" and len(hir.call_args(r)) > 1:
+                a = hir.peel(hir.call_args(r)[1])
+                gg = prog.resolve_local(a) if hir.is_call(a) else None
+                if not (gg is not None and _never_root(prog, gg)):
+                    good = False
+            elif r.get("k") == "Struct" and (r["res"].get("path") or "").endswith("WithCtx"):
+                # builds the guard itself: it must have installed a never-root context just before and
+                # keep the previous one in the guard
+                inst = [x for x in hir.calls_in(f.body, name="set_ctx")]
+                okc = len(inst) == 1 and inst[0]["id"] < r["id"]
+                if okc:
+                    a = hir.peel(hir.call_args(inst[0])[1])
+                    gg = prog.resolve_local(a) if hir.is_call(a) else None
+                    okc = gg is not None and _never_root(prog, gg)
+                keeps = any(hir.is_call(hir.peel(_init_of(f, fl["e"]))) and hir.callee_name(hir.peel(_init_of(f, fl["e"]))) == "get_ctx" for fl in r["fields"])
+                if not (okc and keeps):
+                    good = False
+            else:
                 good = False
                 break
-            a = hir.peel(hir.call_args(r)[1])
-            gg = prog.resolve_local(a) if hir.is_call(a) else None
-            if not (gg is not None and _never_root(prog, gg)):
-                good = False
         if good:
             guards.add(f.name)
     roots = [(f, n) for f, n, c in prog.call_sites() if hir.is_call(n) and c["name"] == "root" and "Ctx" in c["path"] and not f.rec.get("gen")]
@@ -220,6 +270,17 @@ def rule_reset(check):
     wc = prog.fn("VisitorWithContext::with_child_ctx")
     ok = any(hir.is_call(x) and hir.callee_name(x) == "child" for x in hir.walk(wc.body))
     check.expect(ok, R, R + "/with_child_ctx", hir.loc(wc.rec), "with_child_ctx installs Ctx::child(..)", "with_child_ctx does not install a child context")
+
+
+def _init_of(f, e):
+    """initialiser of an immutable local, else the expression itself"""
+    e = hir.peel(e)
+    l = hir.local_of(e)
+    if l:
+        b = f.bindings().get(l[0])
+        if b and b["origin"][0] == "let" and b["origin"][1] is not None and not f.assignments_to(l[0]):
+            return b["origin"][1]
+    return e
 
 
 def _never_root(prog, f, depth=0):
